@@ -19,7 +19,7 @@ REQUIRED_COUNTERS = ["crash_points_observed.sqlite", "crash_points_observed.peew
 LOST_BOUND = 64   # "at most the last few dozen (documented: about 50) buffered event writes"
 RULE = ("operation histories (10-400 ops: single inserts, bulk inserts of 1-250 rows, upserts, replace, replace_last, "
         "long runs of deletes, flushing reads, bucket create/update/delete; some write-only runs of > 200 ops) on a "
-        "file-backed sqlite (lazy commit) or peewee store. In-process tier: at EVERY traced SQL statement boundary and "
+        "file-backed sqlite (lazy commit; a fifth of the sqlite histories with enable_lazy_commit=False, the auto-committing configuration, where every completed operation must be durable) or peewee store. In-process tier: at EVERY traced SQL statement boundary and "
         "at every operation return a second read-only connection reads the committed state = what a process death "
         "at that instant would leave; it must equal a state reached by a prefix of the elementary writes (the "
         "writer's own view after each completed op, or an intermediate state of a bulk op in an admissible issue "
@@ -201,7 +201,7 @@ def gen_case(rng, ctx):
     if r < (0.3 if ctx.tier == "quick" else 0.3):
         # real crashes: short histories, every statement index (thorough) or a sample (quick)
         ops = gen_history(rng, rng.randrange(4, 14))
-        return dict(kind="real", backend=backend, ops=ops, mode=rng.choice(["sigkill", "sigkill", "sigkill", "_exit", "exit", "parentkill"]),
+        return dict(kind="real", backend=backend, ops=ops, eager=(backend == "sqlite" and rng.random() < 0.25), mode=rng.choice(["sigkill", "sigkill", "sigkill", "_exit", "exit", "parentkill"]),
                     every=ctx.tier == "thorough", k=rng.randrange(1, 200), delay_us=rng.randrange(0, 3000))
     if r < 0.4:
         ops = storm(rng, rng.choice(STORM_KINDS), other=rng.choice([None, None, 10, 30]))
@@ -209,7 +209,10 @@ def gen_case(rng, ctx):
         ops = gen_history(rng, rng.randrange(200, 400), write_only=True)
     else:
         ops = gen_history(rng, rng.randrange(10, 120))
-    return dict(kind="inproc", backend=backend, ops=ops)
+    case = dict(kind="inproc", backend=backend, ops=ops)
+    if backend == "sqlite" and rng.random() < 0.2:
+        case["eager"] = True      # SqliteStorage(enable_lazy_commit=False): the auto-committing configuration of that backend
+    return case
 
 
 # ------------------------------------------------------------------ positions (the admissible prefix states)
@@ -305,7 +308,7 @@ def reference_run(case, ctx, observe=True):
     """Runs the history in this process. Returns (positions, observations, op_info)."""
     backend = case["backend"]
     path = os.path.join(ctx.tmp, f"c06-{os.getpid()}-{ctx.evaluations}-{int(time.monotonic() * 1e6) % 10**9}.db")
-    hr = HistoryRunner(backend, path, ctx.tmp)
+    hr = HistoryRunner(backend, path, ctx.tmp, lazy=not case.get("eager"))
     obs = Observer(path, backend) if observe else None
     pos = Positions()
     collateral = []
@@ -423,7 +426,7 @@ def judge(case, pos, observations, op_meta, ctx, tier_label):
             ctx.count("returns_checked")
             opk = case["ops"][j]["op"]
             executed = op_meta[j].get("executed", True) if j < len(op_meta) else True
-            if (opk in BUCKET_OPS and executed) or backend == "peewee":
+            if (opk in BUCKET_OPS and executed) or backend == "peewee" or case.get("eager"):
                 if best != pos.end_of_op[j]:
                     what_ = "bucket-level operation" if opk in BUCKET_OPS else "completed operation"
                     viols.append((f"{backend}:{what_.replace(' ', '-')}-not-durable-on-return",
@@ -443,7 +446,7 @@ def run_child(case, mode, k, delay_us, ctx):
     """Runs the history in a child that dies; returns (journal entries, db path)."""
     path = os.path.join(ctx.tmp, f"c06-real-{os.getpid()}-{int(time.monotonic() * 1e6) % 10**9}.db")
     jpath = path + ".journal.txt"
-    args = dict(backend=case["backend"], ops=case["ops"], path=path, journal=jpath, mode=mode, k=k)
+    args = dict(backend=case["backend"], ops=case["ops"], path=path, journal=jpath, mode=mode, k=k, eager=bool(case.get("eager")))
     apath = path + ".args.json"          # histories can carry megabytes of payload: too long for an argument list
     with open(apath, "w") as f:
         json.dump(args, f)
@@ -530,7 +533,7 @@ def judge_real(case, pos, op_meta, entries, path, ctx, mode):
     if last_ret >= 0:
         need = None
         for jj in range(last_ret, -1, -1):
-            if backend == "peewee" or (case["ops"][jj]["op"] in BUCKET_OPS and op_meta[jj]["executed"]):
+            if backend == "peewee" or case.get("eager") or (case["ops"][jj]["op"] in BUCKET_OPS and op_meta[jj]["executed"]):
                 need = jj
                 break
         if need is not None and best < pos.end_of_op[need]:
